@@ -4,7 +4,7 @@ package main
 // by one Go construct; Decl holds the top-level declarations it needs.  Placeholders:
 //
 //	$P   unique prefix of this atom instance (s<scenario>a<index>)      $X / $Y  input / output variable
-//	$C, $D  two opaque conditions c(k)                                    $N  scenario number
+//	$C, $D  two opaque conditions c(k)                                    $N  scenario number   $Q  5000+$N (second source)
 //
 // Flows says whether the marker natively survives the atom in at least one valuation of the opaque conditions
 // (informative only: the ground truth is always the native execution).  Key is the stable finding key of the input class
@@ -27,6 +27,12 @@ const sDecl = "type $PS struct{ a, b string }\n"
 const tDecl = "type $PT struct{ v string }\nfunc (t $PT) Get() string { return t.v }\nfunc (t *$PT) Set(v string) { t.v = v }\n"
 const iDecl = "type $PI interface{ Get() string }\n" + tDecl
 const idDecl = "func $Pf(v string) string { return v }\n"
+const pairDecl = "func $Pf(a, b string) (string, string) { return a, b }\n"
+const tripleDecl = "func $Pt(a, b, c string) (string, string, string) { return a, b, c }\n"
+const joinDecl = "func $Pj(a, b string) string { return a + \"/\" + b }\n"
+
+// second source of a scenario: source<5000+N>() returning the marker #<5000+N>#
+const src2Decl = "func source$Q() string { return \"#$Q#\" }\n"
 
 var catalog = []atomDef{
 	// ------------------------------------------------------------------ copies, concatenation, conversions
@@ -121,6 +127,33 @@ var catalog = []atomDef{
 	{"global", "closure-read", true, "var $PG string\nfunc $Pw(v string) { $PG = v }\nfunc $Pr() string { f := func() string { return $PG }; return f() }\n", "$Pw($X)\n$Y := $Pr()", ""},
 	{"global", "two-hop", true, "var $PG, $PH string\nfunc $Pw(v string) { $PG = v }\nfunc $Pm() { $PH = $PG }\nfunc $Pr() string { return $PH }\n", "$Pw($X)\n$Pm()\n$Y := $Pr()", ""},
 
+	// ------------------------------------------------------------------ globals, continued: context-free arrival at a pointer / slice /
+	// map / struct-pointer PARAMETER (an out-parameter filled from a global: the flow reaches the parameter after the jump
+	// through the global, i.e. without calling context, and must go on to a caller that nothing else has summarised yet)
+	{"global", "outparam-ptr", true, "var $PG string\nfunc $Pw(v string) { $PG = v }\nfunc $Pl(out *string) { *out = $PG }\nfunc $Pr() string {\nvar s string\n$Pl(&s)\nreturn s\n}\n", "$Pw($X)\n$Y := $Pr()", ""},
+	{"global", "outparam-ptr-2levels", true, "var $PG string\nfunc $Pw(v string) { $PG = v }\nfunc $Pl(out *string) { *out = $PG }\nfunc $Pm(out *string) { $Pl(out) }\nfunc $Pr() string {\nvar s string\n$Pm(&s)\nreturn s\n}\n", "$Pw($X)\n$Y := $Pr()", ""},
+	{"global", "outparam-ptr-reader-2levels", true, "var $PG string\nfunc $Pw(v string) { $PG = v }\nfunc $Pl(out *string) { *out = $PG }\nfunc $Pq() string {\nvar s string\n$Pl(&s)\nreturn s\n}\nfunc $Pr() string { return $Pq() }\n", "$Pw($X)\n$Y := $Pr()", ""},
+	{"global", "outparam-slice", true, "var $PG string\nfunc $Pw(v string) { $PG = v }\nfunc $Pl(out []string) { out[0] = $PG }\nfunc $Pr() string {\ns := make([]string, 1)\n$Pl(s)\nreturn s[0]\n}\n", "$Pw($X)\n$Y := $Pr()", ""},
+	{"global", "outparam-map", true, "var $PG string\nfunc $Pw(v string) { $PG = v }\nfunc $Pl(out map[string]string) { out[\"k\"] = $PG }\nfunc $Pr() string {\nm := map[string]string{}\n$Pl(m)\nreturn m[\"k\"]\n}\n", "$Pw($X)\n$Y := $Pr()", ""},
+	{"global", "outparam-struct", true, sDecl + "var $PG string\nfunc $Pw(v string) { $PG = v }\nfunc $Pl(out *$PS) { out.a = $PG }\nfunc $Pr() string {\nvar s $PS\n$Pl(&s)\nreturn s.a\n}\n", "$Pw($X)\n$Y := $Pr()", ""},
+	{"global", "outparam-sink-in-reader", true, "var $PG string\nfunc $Pw(v string) { $PG = v }\nfunc $Pl(out *string) { *out = $PG }\nfunc $Pid(v string) string { return v }\nfunc $Pr() string {\nvar s string\n$Pl(&s)\nt := $Pid(s)\nreturn t\n}\n", "$Pw($X)\n$Y := $Pr()", ""},
+	{"global", "inparam-from-global", true, "var $PG string\nfunc $Pw(v string) { $PG = v }\nfunc $Pu(v string) string { return v }\nfunc $Pr() string { return $Pu($PG) }\n", "$Pw($X)\n$Y := $Pr()", ""},
+	// readers / writers of the global inside generic function instances, methods of generic types, closures, closures
+	// installed by init, methods and method values
+	{"global", "read-generic", true, "var $PG string\nfunc $Pw(v string) { $PG = v }\nfunc $Pget[T any]() string { return $PG }\nfunc $Pr() string { return $Pget[int]() }\n", "$Pw($X)\n$Y := $Pr()", ""},
+	{"global", "read-generic-param", true, "var $PG string\nfunc $Pw(v string) { $PG = v }\nfunc $Pget[T any](t T) (T, string) { return t, $PG }\nfunc $Pr() string {\n_, s := $Pget(1)\nreturn s\n}\n", "$Pw($X)\n$Y := $Pr()", ""},
+	{"global", "write-generic", true, "var $PG string\nfunc $Pset[T any](t T, v string) { $PG = v }\nfunc $Pw(v string) { $Pset(0, v) }\nfunc $Pr() string { return $PG }\n", "$Pw($X)\n$Y := $Pr()", ""},
+	{"global", "read-generic-method", true, "var $PG string\nfunc $Pw(v string) { $PG = v }\ntype $PB[T any] struct{ t T }\nfunc (b $PB[T]) get() string { return $PG }\nfunc $Pr() string { return $PB[int]{}.get() }\n", "$Pw($X)\n$Y := $Pr()", ""},
+	{"global", "write-generic-method", true, "var $PG string\ntype $PB[T any] struct{ t T }\nfunc (b *$PB[T]) set(v string) { $PG = v }\nfunc $Pw(v string) { (&$PB[int]{}).set(v) }\nfunc $Pr() string { return $PG }\n", "$Pw($X)\n$Y := $Pr()", ""},
+	{"global", "write-closure", true, "var $PG string\nfunc $Pw(v string) {\nf := func() { $PG = v }\nf()\n}\nfunc $Pr() string { return $PG }\n", "$Pw($X)\n$Y := $Pr()", ""},
+	{"global", "read-init-closure", true, "var $PG string\nfunc $Pw(v string) { $PG = v }\nvar $Pf func() string\nfunc init() { $Pf = func() string { return $PG } }\nfunc $Pr() string { return $Pf() }\n", "$Pw($X)\n$Y := $Pr()", ""},
+	{"global", "write-init-closure", true, "var $PG string\nvar $Pset func(string)\nfunc init() { $Pset = func(v string) { $PG = v } }\nfunc $Pw(v string) { $Pset(v) }\nfunc $Pr() string { return $PG }\n", "$Pw($X)\n$Y := $Pr()", ""},
+	{"global", "read-method", true, "var $PG string\nfunc $Pw(v string) { $PG = v }\ntype $PT struct{}\nfunc ($PT) get() string { return $PG }\nfunc $Pr() string { return $PT{}.get() }\n", "$Pw($X)\n$Y := $Pr()", ""},
+	{"global", "read-method-value", true, "var $PG string\nfunc $Pw(v string) { $PG = v }\ntype $PT struct{}\nfunc ($PT) get() string { return $PG }\nfunc $Pr() string {\ng := $PT{}.get\nreturn g()\n}\n", "$Pw($X)\n$Y := $Pr()", ""},
+	{"global", "write-method-value", true, "var $PG string\ntype $PT struct{}\nfunc (*$PT) set(v string) { $PG = v }\nfunc $Pw(v string) {\nf := (&$PT{}).set\nf(v)\n}\nfunc $Pr() string { return $PG }\n", "$Pw($X)\n$Y := $Pr()", ""},
+	{"global", "read-iface-method", true, "var $PG string\nfunc $Pw(v string) { $PG = v }\ntype $PI interface{ get() string }\ntype $PT struct{}\nfunc ($PT) get() string { return $PG }\nfunc $Pr() string {\nvar i $PI = $PT{}\nreturn i.get()\n}\n", "$Pw($X)\n$Y := $Pr()", ""},
+	{"global", "read-deferred", true, "var $PG string\nfunc $Pw(v string) { $PG = v }\nfunc $Pr() (r string) {\ndefer func() { r = $PG }()\nreturn \"\"\n}\n", "$Pw($X)\n$Y := $Pr()", ""},
+
 	// ------------------------------------------------------------------ maps
 	{"map", "update-lookup", true, "", "$Pm := map[string]string{}\n$Pm[\"k\"] = $X\n$Y := $Pm[\"k\"]", ""},
 	{"map", "literal", true, "", "$Pm := map[string]string{\"k\": $X}\n$Y := $Pm[\"k\"]", ""},
@@ -204,6 +237,37 @@ var catalog = []atomDef{
 	{"ret", "tuple-forward", true, "func $Pf(v string) (string, string) { return \"a\", v }\nfunc $Pg(v string) (string, string) { return $Pf(v) }\n", "_, $Y := $Pg($X)", ""},
 	{"ret", "tuple-as-args", true, "func $Pf(v string) (string, string) { return \"a\", v }\nfunc $Ph(a, b string) string { return b }\n", "$Y := $Ph($Pf($X))", ""},
 	{"ret", "n2-error", true, "func $Pf(v string) (string, error) { return v, nil }\n", "$Y, $Pe := $Pf($X)\nif $Pe != nil {\n$Y = \"\"\n}", ""},
+
+	// ------------------------------------------------------------------ two or three results of ONE call merged into one value or
+	// argument (the summary out-edge from the call node to the merging node carries one EdgeInfo per tuple index); taint in
+	// result 0 / 1 / 2; variants 2src-* call a SECOND source (source$Q, marker #$Q#) so that two different sources arrive
+	// through two results of the same call: both (source, sink) pairs must be reported
+	{"multires", "concat-r0", true, pairDecl, "$Pa, $Pb := $Pf($X, \"c\")\n$Y := $Pa + \"/\" + $Pb", ""},
+	{"multires", "concat-r1", true, pairDecl, "$Pa, $Pb := $Pf(\"c\", $X)\n$Y := $Pa + \"/\" + $Pb", ""},
+	{"multires", "concat-both", true, pairDecl, "$Pa, $Pb := $Pf($X, $X+\"2\")\n$Y := $Pa + \"/\" + $Pb", ""},
+	{"multires", "concat3-r0", true, tripleDecl, "$Pa, $Pb, $Pc := $Pt($X, \"c\", \"d\")\n$Y := $Pa + $Pb + $Pc", ""},
+	{"multires", "concat3-r1", true, tripleDecl, "$Pa, $Pb, $Pc := $Pt(\"c\", $X, \"d\")\n$Y := $Pa + $Pb + $Pc", ""},
+	{"multires", "concat3-r2", true, tripleDecl, "$Pa, $Pb, $Pc := $Pt(\"c\", \"d\", $X)\n$Y := $Pa + $Pb + $Pc", ""},
+	{"multires", "struct-r0", true, pairDecl + sDecl, "$Pa, $Pb := $Pf($X, \"c\")\n$Ps := $PS{$Pa, $Pb}\n$Y := $Ps.a + $Ps.b", ""},
+	{"multires", "struct-r1", true, pairDecl + sDecl, "$Pa, $Pb := $Pf(\"c\", $X)\n$Ps := $PS{$Pa, $Pb}\n$Y := $Ps.a + $Ps.b", ""},
+	{"multires", "slice-r0", true, pairDecl, "$Pa, $Pb := $Pf($X, \"c\")\n$Ps := []string{$Pa, $Pb}\n$Y := $Ps[0] + $Ps[1]", ""},
+	{"multires", "slice-r1", true, pairDecl, "$Pa, $Pb := $Pf(\"c\", $X)\n$Ps := []string{$Pa, $Pb}\n$Y := strings.Join($Ps, \"/\")", ""},
+	{"multires", "join-callee-r0", true, pairDecl + joinDecl, "$Pa, $Pb := $Pf($X, \"c\")\n$Y := $Pj($Pa, $Pb)", ""},
+	{"multires", "join-callee-r1", true, pairDecl + joinDecl, "$Pa, $Pb := $Pf(\"c\", $X)\n$Y := $Pj($Pa, $Pb)", ""},
+	{"multires", "join-tuple-args-r1", true, pairDecl + joinDecl, "$Y := $Pj($Pf(\"c\", $X))", ""},
+	{"multires", "join-tuple-args-r0", true, pairDecl + joinDecl, "$Y := $Pj($Pf($X, \"c\"))", ""},
+	{"multires", "rereturn-r0", true, pairDecl + "func $Pg(a, b string) (string, string) {\nx, y := $Pf(a, b)\nreturn y, x\n}\n", "$Pa, $Pb := $Pg($X, \"c\")\n$Y := $Pa + $Pb", ""},
+	{"multires", "rereturn-r1", true, pairDecl + "func $Pg(a, b string) (string, string) {\nx, y := $Pf(a, b)\nreturn y, x\n}\n", "$Pa, $Pb := $Pg(\"c\", $X)\n$Y := $Pa + $Pb", ""},
+	{"multires", "rereturn-forward-r1", true, pairDecl + "func $Pg(a, b string) (string, string) { return $Pf(a, b) }\n", "$Pa, $Pb := $Pg(\"c\", $X)\n$Y := $Pa + \"-\" + $Pb", ""},
+	{"multires", "sprintf-r1", true, pairDecl, "$Pa, $Pb := $Pf(\"c\", $X)\n$Y := fmt.Sprintf(\"%s/%s\", $Pa, $Pb)", ""},
+	{"multires", "triple-struct-r2", true, tripleDecl + "type $PU struct{ a, b, c string }\n", "$Pa, $Pb, $Pc := $Pt(\"c\", \"d\", $X)\n$Pu := $PU{$Pa, $Pb, $Pc}\n$Y := $Pu.a + $Pu.b + $Pu.c", ""},
+	{"multires", "2src-concat", true, pairDecl + src2Decl, "$Pa, $Pb := $Pf($X, source$Q())\n$Y := $Pa + \"/\" + $Pb", ""},
+	{"multires", "2src-concat-swapped", true, pairDecl + src2Decl, "$Pa, $Pb := $Pf(source$Q(), $X)\n$Y := $Pa + \"/\" + $Pb", ""},
+	{"multires", "2src-struct", true, pairDecl + src2Decl + sDecl, "$Pa, $Pb := $Pf($X, source$Q())\n$Ps := $PS{$Pa, $Pb}\n$Y := $Ps.a + $Ps.b", ""},
+	{"multires", "2src-join-callee", true, pairDecl + src2Decl + joinDecl, "$Pa, $Pb := $Pf(source$Q(), $X)\n$Y := $Pj($Pa, $Pb)", ""},
+	{"multires", "2src-slice", true, pairDecl + src2Decl, "$Pa, $Pb := $Pf($X, source$Q())\n$Ps := []string{$Pa, $Pb}\n$Y := $Ps[0] + $Ps[1]", ""},
+	{"multires", "2src-rereturn", true, pairDecl + src2Decl + "func $Pg(a, b string) (string, string) {\nx, y := $Pf(a, b)\nreturn y, x\n}\n", "$Pa, $Pb := $Pg($X, source$Q())\n$Y := $Pa + $Pb", ""},
+	{"multires", "2src-triple", true, tripleDecl + src2Decl, "$Pa, $Pb, $Pc := $Pt($X, \"c\", source$Q())\n$Y := $Pa + $Pb + $Pc", ""},
 
 	// ------------------------------------------------------------------ variadics
 	{"variadic", "last", true, "func $Pf(xs ...string) string { return xs[len(xs)-1] }\n", "$Y := $Pf(\"a\", $X)", ""},
